@@ -1,13 +1,17 @@
 import GoPlugin.Oracle.Wire
 import GoPlugin.Model.Sync
+import GoPlugin.Model.ReplyChan
+import GoPlugin.Generated.Facts
 /-
 C20 model rows: `C20.ids kind=… n=<goroutines> calls=<calls each>` — the model's
 answer for n callers of NextId making `calls` calls each: below the word size the
 ids are pairwise distinct (`atomic_ids_distinct`).  As a sanity check of the
 executable semantics the oracle also runs the model itself on a scaled-down
 instance (min n 4 goroutines x min calls 6, round-robin schedule) and reports
-a disagreement between that run and the theorem as `model-bug`.  Supports the tie
-only; no theorem depends on it.
+a disagreement between that run and the theorem as `model-bug`.
+`C20.close seed=… mux=… rounds=… n=…` (broker Close racing in-flight Sends on a real pair):
+the reply-channel model run at the extracted facts — `ok`, or what can go wrong.
+Supports the tie only; no theorem depends on it.
 -/
 namespace GoPlugin.Oracle.C20
 open GoPlugin Wire Sync
@@ -24,7 +28,26 @@ def smallRun (n calls : Nat) : Bool :=
   | some s => (resultsOf s 0).length == n * calls && nodupNat (resultsOf s 0)
   | none => false
 
-def run (_tag : String) (kv : KV) : String :=
+/-- What the reply-channel protocol (`Model/ReplyChan.lean`) can do at the facts `P` when `Close` races
+in-flight `Send`s: the model is RUN on the two shortest racing interleavings (one `Send`, the stream
+goroutine inside `stream.Send`, `Close`, `Send` giving up, the reply; and a second reply). -/
+def replyVerdict (P : ReplyChan.Params) : String :=
+  let traces : List (List ReplyChan.Event) :=
+    [[.call 0, .take 0, .close, .giveUp 0, .reply], [.call 0, .take 0, .reply, .reply]]
+  let panics := traces.any fun t => match ReplyChan.after P t with | some s => s.panicked | none => false
+  if panics then "may-panic"
+  else if (ReplyChan.after P [.call 0, .take 0, .close, .giveUp 0]).isSome then "may-block"
+  else "ok"
+
+/-- `C20.close …`: both streamer types at the extracted facts -/
+def runClose : String :=
+  let vs := [replyVerdict Facts.replyChanClient, replyVerdict Facts.replyChanServer]
+  if vs.contains "may-panic" then "may-panic send-on-closed-channel"
+  else if vs.contains "may-block" then "may-block"
+  else "ok"
+
+def run (tag : String) (kv : KV) : String :=
+  if tag = "C20.close" then runClose else
   match (kv.getD "n" "").toNat?, (kv.getD "calls" "").toNat? with
   | some n, some calls =>
     if !smallRun (min n 4) (min calls 6) then "model-bug"
